@@ -1,1 +1,501 @@
-fn main(){}
+//! Conformance harness for the connection-level properties (C15, C18, C19, C20, C37, C38, C39).
+//!
+//! `bus run <scenarios.ndjson> <trace.ndjson>`: every scenario is a p2p connection over a ScriptSocket,
+//! a set of user tasks (callers, senders, stream consumers) and a list of scheduler steps.  Everything
+//! runs on one thread; zbus's own tasks run only when a step ticks the connection's executor.  The trace
+//! holds one event per observable step, in the order the driver produced them.
+mod peer;
+mod script;
+mod serial;
+
+use futures_util::StreamExt;
+use peer::*;
+use script::*;
+use serde_json::{json, Value as J};
+use std::cell::RefCell;
+use std::collections::HashMap;
+use std::future::Future;
+use std::io::{BufRead, Write};
+use std::pin::Pin;
+use std::rc::Rc;
+use std::task::{Context, Poll, Waker};
+use zbus::{Connection, MessageStream};
+
+fn guid() -> zbus::Guid<'static> {
+    zbus::Guid::try_from("0123456789abcdef0123456789abcdef").unwrap().to_owned()
+}
+
+/// Build an authenticated p2p connection over a scripted socket, without background threads.
+fn connect(sh: &Sh, timeout_ms: u64, max_queued: Option<usize>) -> Connection {
+    let mut b = zbus::connection::Builder::authenticated_socket(split(sh), guid())
+        .unwrap()
+        .p2p()
+        .internal_executor(false);
+    if timeout_ms > 0 {
+        b = b.method_timeout(std::time::Duration::from_millis(timeout_ms));
+    }
+    if let Some(m) = max_queued {
+        b = b.max_queued(m);
+    }
+    let fut = b.build();
+    let mut fut = Box::pin(fut);
+    for _ in 0..1000 {
+        if let Poll::Ready(r) = poll_once(fut.as_mut()) {
+            return r.expect("connection build");
+        }
+    }
+    panic!("connection build did not complete");
+}
+
+/// Credits: a consumer takes one item per credit; `u64::MAX` = unlimited.
+#[derive(Default)]
+struct Gate {
+    credits: u64,
+    waker: Option<Waker>,
+    clone_req: Option<usize>, // slot index to put a clone of the stream into
+}
+type GateRc = Rc<RefCell<Gate>>;
+struct WaitCredit(GateRc);
+impl Future for WaitCredit {
+    type Output = Option<usize>;
+    fn poll(self: Pin<&mut Self>, cx: &mut Context<'_>) -> Poll<Option<usize>> {
+        let mut g = self.0.borrow_mut();
+        if let Some(slot) = g.clone_req.take() {
+            return Poll::Ready(Some(slot));
+        }
+        if g.credits > 0 {
+            if g.credits != u64::MAX {
+                g.credits -= 1;
+            }
+            Poll::Ready(None)
+        } else {
+            g.waker = Some(cx.waker().clone());
+            Poll::Pending
+        }
+    }
+}
+fn grant(g: &GateRc, n: u64) {
+    let w = {
+        let mut g = g.borrow_mut();
+        g.credits = if n == u64::MAX { n } else { g.credits.saturating_add(n) };
+        g.waker.take()
+    };
+    if let Some(w) = w {
+        w.wake();
+    }
+}
+
+fn err_kind(e: &zbus::Error) -> (&'static str, u32, i64) {
+    match e {
+        zbus::Error::MethodError(_, _, m) => (
+            "method_error",
+            m.header().reply_serial().map(|s| s.get()).unwrap_or(0),
+            m.body().deserialize::<u32>().map(|x| x as i64).unwrap_or(-1),
+        ),
+        zbus::Error::InputOutput(_) => ("io", 0, -1),
+        _ => ("other", 0, -1),
+    }
+}
+
+type Slots = Rc<RefCell<HashMap<usize, MessageStream>>>;
+
+fn consumer(sh: Sh, conn: Connection, s: usize, rule: Option<String>, cap: Option<usize>, gate: GateRc, slots: Slots,
+            from_slot: bool) -> Pin<Box<dyn Future<Output = J>>> {
+    Box::pin(async move {
+        let mut stream = if from_slot {
+            let st = slots.borrow_mut().remove(&s).expect("clone slot");
+            emit(&sh, json!({"ev":"Subscribed","stream":s,"result":"clone"}));
+            st
+        } else {
+            match rule {
+                Some(r) => match MessageStream::for_match_rule(r.as_str(), &conn, cap).await {
+                    Ok(st) => {
+                        emit(&sh, json!({"ev":"Subscribed","stream":s,"result":"ok"}));
+                        st
+                    }
+                    Err(e) => {
+                        emit(&sh, json!({"ev":"Subscribed","stream":s,"result":"err","err":err_kind(&e).0}));
+                        return json!("sub-failed");
+                    }
+                },
+                None => {
+                    let st = MessageStream::from(&conn);
+                    emit(&sh, json!({"ev":"Subscribed","stream":s,"result":"ok"}));
+                    st
+                }
+            }
+        };
+        drop(conn);
+        loop {
+            if let Some(slot) = WaitCredit(gate.clone()).await {
+                slots.borrow_mut().insert(slot, stream.clone());
+                emit(&sh, json!({"ev":"StreamCloned","stream":s,"into":slot}));
+                continue;
+            }
+            match stream.next().await {
+                Some(Ok(m)) => {
+                    let d = describe(&m);
+                    emit(&sh, json!({"ev":"Delivered","stream":s,"id":d["id"],"rseq":d["seq"],"type":d["type"]}));
+                }
+                Some(Err(e)) => {
+                    emit(&sh, json!({"ev":"StreamErr","stream":s,"err":err_kind(&e).0}));
+                }
+                None => {
+                    emit(&sh, json!({"ev":"StreamEnd","stream":s}));
+                    return json!("ended");
+                }
+            }
+        }
+    })
+}
+
+fn caller(sh: Sh, conn: Connection, c: usize, noreply: bool) -> Pin<Box<dyn Future<Output = J>>> {
+    Box::pin(async move {
+        let r = async {
+            let p: zbus::Proxy<'static> = zbus::proxy::Builder::new(&conn)
+                .destination("org.verif.Peer")?
+                .path("/org/verif/Obj")?
+                .interface("org.verif.Iface")?
+                .cache_properties(zbus::proxy::CacheProperties::No)
+                .build()
+                .await?;
+            drop(conn);
+            if noreply {
+                p.call_noreply("Call", &(c as u32)).await.map(|_| None)
+            } else {
+                p.call_method("Call", &(c as u32)).await.map(Some)
+            }
+        }
+        .await;
+        match r {
+            Ok(Some(m)) => {
+                let d = describe(&m);
+                emit(&sh, json!({"ev":"CallDone","c":c,"outcome":"ok","reply_serial":d["reply_serial"],"id":d["id"],"err":""}));
+            }
+            Ok(None) => emit(&sh, json!({"ev":"CallDone","c":c,"outcome":"noreply","reply_serial":0,"id":-1,"err":""})),
+            Err(e) => {
+                let (k, rs, id) = err_kind(&e);
+                emit(&sh, json!({"ev":"CallDone","c":c,"outcome":"err","reply_serial":rs,"id":id,"err":k}));
+            }
+        }
+        json!("done")
+    })
+}
+
+fn sender(sh: Sh, conn: Connection, t: usize, n: usize, with_fd: bool) -> Pin<Box<dyn Future<Output = J>>> {
+    Box::pin(async move {
+        for k in 0..n {
+            let id = (t * 100 + k) as u32;
+            let b = zbus::message::Message::signal("/org/verif/S", "org.verif.S", "Sig").unwrap();
+            let msg = if with_fd && k == 0 {
+                let f = std::fs::File::open("/dev/null").unwrap();
+                let fd = zbus::zvariant::Fd::from(std::os::fd::OwnedFd::from(f));
+                // body: (u id, s padding-string, h fd)
+                b.build(&(id, "x".repeat(10 + 7 * k + t), fd)).unwrap()
+            } else {
+                b.build(&(id, "y".repeat(3 + 11 * k + 5 * t))).unwrap()
+            };
+            emit(&sh, json!({"ev":"SendStart","task":t,"k":k,"id":id,"len":msg.data().len(),"nfds":msg.data().fds().len(),
+                             "bytes": msg.data().bytes().to_vec()}));
+            let r = conn.send(&msg).await;
+            emit(&sh, json!({"ev":"SendDone","task":t,"k":k,"id":id,"ok":r.is_ok()}));
+        }
+        json!("done")
+    })
+}
+
+struct Run {
+    sh: Sh,
+    conn: Option<Connection>,
+    sched: Sched,
+    peer: Peer,
+    caller_task: HashMap<usize, usize>,
+    stream_task: HashMap<usize, usize>,
+    gates: HashMap<usize, GateRc>,
+    slots: Slots,
+    wire_of_caller: HashMap<usize, usize>, // caller id -> index in peer.seen
+    next_id: u32,
+}
+
+impl Run {
+    fn pump(&mut self) {
+        for i in self.peer.pump() {
+            let m = &self.peer.seen[i].msg;
+            if m.message_type() == zbus::message::Type::MethodCall {
+                if let Ok(c) = m.body().deserialize::<u32>() {
+                    self.wire_of_caller.insert(c as usize, i);
+                }
+            }
+        }
+    }
+    fn tick(&mut self) -> bool {
+        match &self.conn {
+            Some(c) => tick(c),
+            None => false,
+        }
+    }
+    fn quiesce(&mut self) {
+        for _ in 0..20000 {
+            let mut progressed = false;
+            while self.tick() {
+                progressed = true;
+            }
+            for i in 0..self.sched.tasks.len() {
+                if self.sched.woken(i) {
+                    self.sched.poll(i);
+                    progressed = true;
+                }
+            }
+            self.pump();
+            if !progressed {
+                break;
+            }
+        }
+        let pending: Vec<String> = self.sched.tasks.iter().filter(|t| t.fut.is_some()).map(|t| t.name.clone()).collect();
+        emit(&self.sh, json!({"ev":"Quiescent","pending":pending}));
+    }
+    fn send_in(&mut self, m: zbus::message::Message, kind: &str, cut: Option<usize>) {
+        let d = describe(&m);
+        emit(&self.sh, json!({"ev":"PeerSend","kind":kind,"reply_serial":d["reply_serial"],"id":d["id"],"serial":d["serial"]}));
+        let b = msg_bytes(&m);
+        match cut {
+            Some(k) if k > 0 && k < b.len() => {
+                release(&self.sh, b[..k].to_vec(), vec![]);
+                release(&self.sh, b[k..].to_vec(), vec![]);
+            }
+            _ => release(&self.sh, b, vec![]),
+        }
+    }
+
+    fn step(&mut self, st: &J) {
+        let op = st[0].as_str().unwrap_or("");
+        let a = |i: usize| st[i].as_u64().unwrap_or(0) as usize;
+        match op {
+            "tick" => {
+                let r = self.tick();
+                let _ = r;
+            }
+            "ticks" => {
+                while self.tick() {}
+            }
+            "poll" => {
+                // poll caller / sender task by task index in creation order
+                let i = a(1);
+                if i < self.sched.tasks.len() {
+                    self.sched.poll(i);
+                }
+            }
+            "pollc" => {
+                if let Some(&t) = self.caller_task.get(&a(1)) {
+                    self.sched.poll(t);
+                }
+            }
+            "polls" => {
+                if let Some(&t) = self.stream_task.get(&a(1)) {
+                    self.sched.poll(t);
+                }
+            }
+            "call" => {
+                let c = a(1);
+                let noreply = st[2].as_bool().unwrap_or(false);
+                emit(&self.sh, json!({"ev":"CallStart","c":c,"noreply":noreply}));
+                let conn = self.conn.as_ref().unwrap().clone();
+                let t = self.sched.add(&format!("caller{c}"), caller(self.sh.clone(), conn, c, noreply));
+                self.caller_task.insert(c, t);
+            }
+            "send" => {
+                let t = a(1);
+                let conn = self.conn.as_ref().unwrap().clone();
+                self.sched.add(&format!("sender{t}"), sender(self.sh.clone(), conn, t, a(2), st[3].as_bool().unwrap_or(false)));
+            }
+            "sub" => {
+                let s = a(1);
+                let rule = st[2].as_str().map(|x| x.to_string());
+                let cap = st[3].as_u64().map(|x| x as usize);
+                emit(&self.sh, json!({"ev":"SubStart","stream":s,"rule":rule.clone().unwrap_or_default(),"cap":cap.unwrap_or(0)}));
+                let g: GateRc = Rc::new(RefCell::new(Gate::default()));
+                self.gates.insert(s, g.clone());
+                let conn = self.conn.as_ref().unwrap().clone();
+                let t = self.sched.add(&format!("stream{s}"), consumer(self.sh.clone(), conn, s, rule, cap, g, self.slots.clone(), false));
+                self.stream_task.insert(s, t);
+            }
+            "clone" => {
+                // ["clone", s, s2]: ask consumer s to clone its stream into slot s2, then start consumer s2
+                let (s, s2) = (a(1), a(2));
+                if let Some(g) = self.gates.get(&s) {
+                    let w = {
+                        let mut g = g.borrow_mut();
+                        g.clone_req = Some(s2);
+                        g.waker.take()
+                    };
+                    if let Some(w) = w {
+                        w.wake();
+                    }
+                    if let Some(&t) = self.stream_task.get(&s) {
+                        self.sched.poll(t);
+                    }
+                    if self.slots.borrow().contains_key(&s2) {
+                        let g2: GateRc = Rc::new(RefCell::new(Gate::default()));
+                        self.gates.insert(s2, g2.clone());
+                        let conn = self.conn.as_ref().unwrap().clone();
+                        let t = self.sched.add(&format!("stream{s2}"), consumer(self.sh.clone(), conn, s2, None, None, g2, self.slots.clone(), true));
+                        self.stream_task.insert(s2, t);
+                        self.sched.poll(t);
+                    }
+                }
+            }
+            "credit" => {
+                if let Some(g) = self.gates.get(&a(1)) {
+                    grant(g, st[2].as_u64().unwrap_or(1));
+                }
+            }
+            "dropstream" => {
+                let s = a(1);
+                if let Some(&t) = self.stream_task.get(&s) {
+                    if !self.sched.done(t) {
+                        self.sched.cancel(t);
+                        emit(&self.sh, json!({"ev":"StreamDrop","stream":s}));
+                    }
+                }
+            }
+            "cancelcall" => {
+                if let Some(&t) = self.caller_task.get(&a(1)) {
+                    if !self.sched.done(t) {
+                        self.sched.cancel(t);
+                        emit(&self.sh, json!({"ev":"CallCancelled","c":a(1)}));
+                    }
+                }
+            }
+            "reply" | "error" => {
+                self.pump();
+                let c = a(1);
+                if let Some(&i) = self.wire_of_caller.get(&c) {
+                    self.next_id += 1;
+                    let id = 1000 + c as u32;
+                    let m = if op == "reply" { self.peer.reply_to(i, id) } else { self.peer.error_to(i, id) };
+                    let cut = st[2].as_u64().map(|x| x as usize);
+                    self.send_in(m, if op == "reply" { "return" } else { "error" }, cut);
+                } else {
+                    emit(&self.sh, json!({"ev":"StepSkipped","step":st}));
+                }
+            }
+            "stray" => {
+                let rs = 0x7000_0000u32 + a(1) as u32;
+                let m = self.peer.stray(rs, 9000 + a(1) as u32, st[2].as_bool().unwrap_or(false));
+                self.send_in(m, "stray", None);
+            }
+            "signal" => {
+                // ["signal", member, id]
+                let member = st[1].as_str().unwrap_or("Sig");
+                let id = a(2) as u32;
+                let m = self.peer.signal("/org/verif/Obj", "org.verif.Iface", member, Some(":1.7"), id);
+                self.send_in(m, "signal", st[3].as_u64().map(|x| x as usize));
+            }
+            "permit" => allow_write(&self.sh, a(1).max(1)),
+            "gate" => {
+                self.sh.lock().unwrap().write_gated = st[1].as_bool().unwrap_or(true);
+            }
+            "eof" => {
+                emit(&self.sh, json!({"ev":"Fault","where":"read","kind":"eof"}));
+                set_read_fault(&self.sh, Fault::Eof);
+            }
+            "readerr" => {
+                emit(&self.sh, json!({"ev":"Fault","where":"read","kind":"err"}));
+                set_read_fault(&self.sh, Fault::Err);
+            }
+            "partial" => {
+                // release only the first k bytes of a signal, then fault: ["partial", member, id, k, "eof"|"err"]
+                let m = self.peer.signal("/org/verif/Obj", "org.verif.Iface", st[1].as_str().unwrap_or("Sig"), Some(":1.7"), a(2) as u32);
+                let b = msg_bytes(&m);
+                let k = a(3).min(b.len().saturating_sub(1));
+                emit(&self.sh, json!({"ev":"PeerSendPartial","id":a(2),"k":k,"len":b.len()}));
+                if k > 0 {
+                    release(&self.sh, b[..k].to_vec(), vec![]);
+                }
+                let kind = st[4].as_str().unwrap_or("eof");
+                emit(&self.sh, json!({"ev":"Fault","where":"read","kind":kind}));
+                set_read_fault(&self.sh, if kind == "eof" { Fault::Eof } else { Fault::Err });
+            }
+            "writeerr" => {
+                emit(&self.sh, json!({"ev":"Fault","where":"write","kind":"err"}));
+                set_write_fault(&self.sh, Fault::Err);
+            }
+            "sleep" => std::thread::sleep(std::time::Duration::from_millis(a(1) as u64)),
+            "quiesce" => self.quiesce(),
+            "dropconn" => {
+                if self.conn.take().is_some() {
+                    emit(&self.sh, json!({"ev":"HandleDrop","which":"conn"}));
+                }
+            }
+            "allcredit" => {
+                for g in self.gates.values() {
+                    grant(g, u64::MAX);
+                }
+            }
+            _ => emit(&self.sh, json!({"ev":"StepUnknown","step":st})),
+        }
+        self.pump();
+    }
+}
+
+fn run_scenario(sc: &J) -> Vec<J> {
+    let sh = new_shared();
+    sh.lock().unwrap().log_io = sc["log_io"].as_bool().unwrap_or(false);
+    sh.lock().unwrap().write_gated = sc["write_gated"].as_bool().unwrap_or(false);
+    emit(&sh, json!({"ev":"Reset","scenario":sc["id"],"kind":sc["kind"],"ncallers":sc["ncallers"],"cap":sc["cap"]}));
+    let conn = connect(&sh, sc["timeout_ms"].as_u64().unwrap_or(0), sc["max_queued"].as_u64().map(|x| x as usize));
+    let mut run = Run {
+        sh: sh.clone(),
+        conn: Some(conn),
+        sched: Sched::new(),
+        peer: Peer::new(&sh),
+        caller_task: HashMap::new(),
+        stream_task: HashMap::new(),
+        gates: HashMap::new(),
+        slots: Rc::new(RefCell::new(HashMap::new())),
+        wire_of_caller: HashMap::new(),
+        next_id: 0,
+    };
+    let res = std::panic::catch_unwind(std::panic::AssertUnwindSafe(|| {
+        for st in sc["steps"].as_array().unwrap() {
+            run.step(st);
+        }
+    }));
+    if let Err(e) = res {
+        let msg = e.downcast_ref::<String>().cloned().or_else(|| e.downcast_ref::<&str>().map(|s| s.to_string())).unwrap_or_default();
+        emit(&sh, json!({"ev":"Panic","msg":msg}));
+    }
+    // tear down: drop tasks, then the connection, tick nothing further
+    run.sched.tasks.clear();
+    drop(run);
+    let ev = std::mem::take(&mut sh.lock().unwrap().events);
+    ev
+}
+
+fn main() {
+    let args: Vec<String> = std::env::args().collect();
+    match args[1].as_str() {
+        "run" => {
+            std::panic::set_hook(Box::new(|_| {}));
+            let inp = std::io::BufReader::new(std::fs::File::open(&args[2]).expect("scenarios"));
+            let mut w = std::io::BufWriter::new(std::fs::File::create(&args[3]).expect("trace"));
+            for line in inp.lines() {
+                let line = line.unwrap();
+                if line.trim().is_empty() {
+                    continue;
+                }
+                let sc: J = serde_json::from_str(&line).expect("scenario json");
+                for (i, mut e) in run_scenario(&sc).into_iter().enumerate() {
+                    e["scn"] = sc["id"].clone();
+                    e["n"] = json!(i);
+                    writeln!(w, "{}", serde_json::to_string(&e).unwrap()).unwrap();
+                }
+            }
+        }
+        "serial" => serial::cmd(&args[2..]),
+        other => {
+            eprintln!("unknown command {other}");
+            std::process::exit(2);
+        }
+    }
+}
